@@ -1,6 +1,9 @@
 """C20 (addressable part) — every qevent event serialises to a JSON object with the mandatory qlog
 fields and parses back to an equal event.  NOT claimed: "never panics for lack of span context" and
-"same application-visible behaviour with logging on/off" (whole-stack properties, see MANIFEST note)."""
+"same application-visible behaviour with logging on/off" (whole-stack properties, see MANIFEST note) -- of these, the stream `qlog`
+(second half of this file) covers the deterministic formulation one layer down: the receive path of read_plain_packet and the loss path of
+may_loss on arbitrary payload bytes under every exporter configuration and receiver lifetime never panic, hand the dispatcher the same frames
+whatever the exporter, and deliver exactly the events that pass the filter to a live receiver (theorems c20_log_*)."""
 import struct
 
 import extract_qevent as xq
@@ -961,10 +964,430 @@ def mutate(rng, case, j):
     return Case("m%d" % j, ops, meta={"m": meta})
 
 
+
+# ======================================================================================
+# stream `qlog`: the telemetry layer driven the way the transport drives it (receive path of read_plain_packet, loss path of
+# may_loss) under every exporter configuration and receiver lifetime
+# ======================================================================================
+import pycodec as pc
+
+Q_RULE = ("cases = histories of one thread-local span: EXPORTER(kind, mask, group_id) installs no exporter / the stock NoopLogger / a channel "
+          "exporter (the crate's impl for UnboundedSender<Event>) / a filtering exporter (per-scheme mask, raw data on/off) / the stock "
+          "LegacySeqLogger on a sink that can start failing; GONE drops the receiving half (or makes the sink fail); RECV(ptype, pn, payload) "
+          "runs the receive path on wire bytes (FrameReader -> QuicFramesCollector::extend -> dispatch -> event!(PacketReceived)), "
+          "LOST the loss path (QuicFramesCollector::<PacketLost>); TICK runs the logger's writer task. The same packet workload is replayed "
+          "under several exporter configurations, before and after the receiver is gone. Payloads: 0-6 well-formed frames of every type "
+          "(all varint fields at the 1/2/4/8-byte boundaries, 2^32 +- 1, 2^62 - 1), a per-type sweep, malformed tails, one payload large "
+          "enough to overflow the log writer's buffer. Non-trivial: two different exporter kinds, one of them capturing, and a packet "
+          "with two frames or a field >= 2^32")
+Q_KINDS = {0: "none", 1: "noop", 2: "channel", 3: "filtered", 4: "legacy-file"}
+
+
+Q_VALUES = {}     # payload bytes -> field values of its frames (generator-side knowledge, used by the oracle's value clauses)
+
+
+def q_expect(code, f):
+    """what qlog has to show of a frame, stated from RFC 9000 / the qlog schema: (tag, {field index: value})"""
+    m32 = 2 ** 32
+    if code in (pc.ACK, pc.ACK_ECN):
+        largest, first, n = f[0], f[2], f[3]
+        rs, small = [(largest - first, largest)], largest - first
+        for i in range(n):
+            hi = small - f[4 + 2 * i] - 2
+            small = hi - f[5 + 2 * i]
+            rs.append((small, hi))
+        exp = {0: len(rs)}
+        for i, (lo, hi) in enumerate(rs):
+            exp[1 + 2 * i], exp[2 + 2 * i] = lo, hi
+        return 2, exp
+    if code == pc.RESET_STREAM:
+        return 3, {1: f[1] % m32, 2: f[2]}
+    if code == pc.STOP_SENDING:
+        return 4, {1: f[1] % m32}
+    if code == pc.CRYPTO:
+        return 5, {0: f[0], 2: f[1], 4: f[1]}
+    if pc.STREAM <= code <= pc.STREAM + 7:
+        return 7, {0: f[0], 1: f[1], 2: f[4], 3: f[3], 5: f[4]}
+    if code in (pc.MAX_DATA, pc.DATA_BLOCKED):
+        return (8 if code == pc.MAX_DATA else 11), {0: f[0]}
+    if code in (pc.MAX_STREAM_DATA, pc.STREAM_DATA_BLOCKED):
+        return (9 if code == pc.MAX_STREAM_DATA else 12), {1: f[1]}
+    if code in (pc.MAX_STREAMS_BI, pc.MAX_STREAMS_UNI, pc.STREAMS_BLOCKED_BI, pc.STREAMS_BLOCKED_UNI):
+        return (10 if code in (pc.MAX_STREAMS_BI, pc.MAX_STREAMS_UNI) else 13), {0: 1 if code in (pc.MAX_STREAMS_UNI, pc.STREAMS_BLOCKED_UNI) else 0, 1: f[0]}
+    if code == pc.NEW_CONNECTION_ID:
+        return 14, {0: f[0] % m32, 1: f[1] % m32, 2: f[2]}
+    if code == pc.RETIRE_CONNECTION_ID:
+        return 15, {0: f[0] % m32}
+    if code == pc.CLOSE_APP:
+        return 18, {0: 1, 1: f[0] % m32}
+    if code == pc.CLOSE_QUIC:
+        return 18, {0: 0, 2: f[1]}
+    if code in (pc.DATAGRAM, pc.DATAGRAM_LEN):
+        return 21, {0: f[0], 2: f[0]}
+    return None
+
+
+def q_payload(rng, p, n, small=True, codes=None):
+    frames, wire, vals = [], b"", []
+    for i in range(n):
+        for _ in range(20):
+            code = rng.choice(codes) if codes else rng.choice(pc.ALL_CODES)
+            if p in pc.allowed_ptypes(code):
+                break
+        else:
+            code = pc.PING
+        code, f = pc.rand_frame(rng, code, small=small)
+        if pc.STREAM <= code <= pc.STREAM + 7:
+            code = pc.STREAM | (4 if f[1] != 0 else 0) | (2 if f[2] else 0) | (1 if f[3] else 0)
+        no_len = (pc.STREAM <= code <= pc.STREAM + 7 and not (code & 2)) or code == pc.DATAGRAM
+        frames.append(code)
+        vals.append(list(f))
+        wire += pc.encode_frame(code, f)
+        if no_len:
+            break
+    Q_VALUES[wire] = vals
+    return frames, wire
+
+
+def q_packet(rng, codes=None):
+    """-> (op, meta)"""
+    p = rng.choice([0, 1, 2, 3, 3, 3])
+    r = rng.random()
+    n = 0 if r < 0.04 else rng.choice([1, 1, 2, 2, 3, 4, 6])
+    frames, wire = q_payload(rng, p, n, small=rng.random() < 0.8, codes=codes)
+    bad = False
+    if rng.random() < 0.12 and wire:
+        bad = True
+        wire = rng.choice([wire[:-1], wire + bytes([0x1f]), wire + bytes([0x04, 0x05]), wire[:max(1, len(wire) // 2)],
+                           wire + bytes([0x02, 5, 0, 0, 9])])     # truncated / unknown type / incomplete / ACK below packet number 0
+    tag = 2 if rng.random() < 0.7 else 3
+    return (tag, [p, rng.choice([0, 1, 7, 2 ** 32, 2 ** 62 - 1]), wire]), ("P", None if bad else frames)
+
+
+def q_exporter(rng, kind=None):
+    kind = rng.choice([0, 1, 2, 2, 3, 3, 3, 4]) if kind is None else kind
+    mask = rng.randrange(8) if kind == 3 else 0
+    return (0, [kind, mask, rng.randrange(2)]), ("X", kind)
+
+
+def q_case(rng, name):
+    ops, meta = [], []
+    work = [q_packet(rng) for _ in range(rng.choice([1, 2, 3]))]
+    kinds = rng.sample([0, 1, 2, 3, 3, 4], rng.choice([2, 3, 4]))
+    for kind in kinds:
+        x, m = q_exporter(rng, kind)
+        ops.append(x), meta.append(m)
+        for w, m in work:
+            ops.append(w), meta.append(m)
+        if kind == 4:
+            ops.append((5, [])), meta.append(("T",))
+        if rng.random() < 0.5:
+            # the capturing side goes away while the span lives on: late events
+            ops.append((1, [])), meta.append(("G",))
+            for w, m in work:
+                ops.append(w), meta.append(m)
+            if kind == 4:
+                ops.append((5, [])), meta.append(("T",))
+                w, m = q_packet(rng)
+                ops.append(w), meta.append(m)
+    return Case(name, ops, meta={"m": meta})
+
+
+Q_WIDE = [2 ** 32 - 1, 2 ** 32, 2 ** 32 + 1, 2 ** 62 - 1]
+# positions (in pycodec's field list) of the varint fields that may take any 62-bit value independently of the others
+Q_WIDE_FIELDS = {pc.ACK: [0, 1], pc.ACK_ECN: [0, 1, -3, -2, -1], pc.RESET_STREAM: [0, 1, 2], pc.STOP_SENDING: [0, 1], pc.CRYPTO: [0],
+                 pc.STREAM: [0], pc.STREAM | 4: [0, 1], pc.MAX_DATA: [0], pc.MAX_STREAM_DATA: [0, 1], pc.DATA_BLOCKED: [0],
+                 pc.STREAM_DATA_BLOCKED: [0, 1], pc.STREAMS_BLOCKED_BI: [0], pc.STREAMS_BLOCKED_UNI: [0], pc.NEW_CONNECTION_ID: [0],
+                 pc.RETIRE_CONNECTION_ID: [0], pc.CLOSE_APP: [0], pc.REMOVE_ADDRESS: [0]}
+
+
+def q_wide(rng, code):
+    """the frames of this type with one varint field at each value around 2^32 and at 2^62 - 1"""
+    out = []
+    for idx in Q_WIDE_FIELDS.get(code, []):
+        for w in Q_WIDE:
+            c, f = pc.rand_frame(rng, code, small=True)
+            f = list(f)
+            if code in (pc.CRYPTO, pc.STREAM | 4) and idx == (0 if code == pc.CRYPTO else 1):
+                n = f[1] if code == pc.CRYPTO else f[4]
+                w = min(w, pc.VARINT_MAX - n)
+            f[idx] = w
+            if code == pc.NEW_CONNECTION_ID:
+                f[1] = min(f[1], f[0])                     # retire_prior_to <= sequence number
+            if code in (pc.ACK, pc.ACK_ECN) and idx == 0:
+                f = [w, f[1], min(f[2], w), 0] + f[4 + 2 * f[3]:]      # one range below the new largest
+            if pc.STREAM <= c <= pc.STREAM + 7:
+                c = pc.STREAM | (4 if f[1] != 0 else 0) | (2 if f[2] else 0) | (1 if f[3] else 0)
+            out.append((c, f))
+    return out
+
+
+def q_sweep(rng):
+    """every frame type: three random values and every independent varint field at 2^32 - 1, 2^32, 2^32 + 1 and 2^62 - 1, through a
+    channel exporter, a raw-data filtering exporter and no exporter, on the receive and on the loss path"""
+    cases = []
+    for i, code in enumerate(pc.ALL_CODES):
+        work = []
+        frames = [pc.rand_frame(rng, code, small=True) for _ in range(3)] + q_wide(rng, code)
+        for c, f in frames:
+            if pc.STREAM <= c <= pc.STREAM + 7:
+                c = pc.STREAM | (4 if f[1] != 0 else 0) | (2 if f[2] else 0) | (1 if f[3] else 0)
+            p = rng.choice(pc.allowed_ptypes(c))
+            Q_VALUES[pc.encode_frame(c, f)] = [list(f)]
+            work.append(((rng.choice([2, 3]), [p, 1, pc.encode_frame(c, f)]), ("P", [c])))
+        for lo in range(0, len(work), 8):
+            ops, meta = [], []
+            for x in ((0, [2, 0, 1]), (0, [3, 7, 0]), (0, [0, 0, 0])):
+                ops.append(x), meta.append(("X", x[1][0]))
+                for w, m in work[lo:lo + 8]:
+                    ops.append(w), meta.append(m)
+            cases.append(Case("qsweep%d_%d" % (i, lo // 8), ops, meta={"m": meta}))
+    return cases
+
+
+def q_late(rng, name, kind):
+    """directed: the receiver disappears before the last clone of the span emits its last event"""
+    ops, meta = [], []
+    x, m = q_exporter(rng, kind)
+    if kind == 3:
+        x = (0, [3, x[1][1] | 3, x[1][2]])
+    ops.append(x), meta.append(m)
+    w, m = q_packet(rng)
+    ops.append(w), meta.append(m)
+    ops.append((1, [])), meta.append(("G",))
+    if kind == 4:
+        # the writer task only notices the dead sink when its 8 KiB buffer spills: one large packet, then let it run
+        big = pc.encode_frame(pc.MAX_DATA, [5]) * 600
+        Q_VALUES[big] = [[5]] * 600
+        ops.append((2, [3, 9, big])), meta.append(("P", [pc.MAX_DATA] * 600))
+        ops.append((5, [])), meta.append(("T",))
+    for _ in range(2):
+        w, m = q_packet(rng)
+        ops.append(w), meta.append(m)
+    return Case(name, ops, meta={"m": meta})
+
+
+def q_gen(rng, tier):
+    n = 250 if tier == "quick" else 6000
+    cases = q_sweep(rng)
+    cases += [q_late(rng, "qlate%d_%d" % (kind, i), kind) for kind in (2, 3, 4) for i in range(4 if tier == "quick" else 40)]
+    cases += [q_case(rng, "q%d" % i) for i in range(n)]
+    return cases
+
+
+def q_split(line):
+    o = [int(x) for x in line.split()]
+    if -7 not in o:
+        return None, None
+    i = o.index(-7)
+    return o[:i], o[i + 1:]
+
+
+def q_app_frames(app):
+    """-> (list of (consumed, type code), error code or None) or None when the dispatcher's record is garbled"""
+    out, i = [], 0
+    while i < len(app):
+        if app[i] == 0 and i + 2 < len(app):
+            out.append((app[i + 1], app[i + 2]))
+            i += 3
+        elif app[i] == 1 and i + 2 == len(app):
+            return out, app[i + 1]
+        else:
+            return None
+    return out, None
+
+
+Q_NFIELDS = {0: 2, 1: 2, 3: 3, 4: 2, 5: 6, 6: 3, 7: 7, 8: 1, 9: 2, 10: 2, 11: 1, 12: 2, 13: 2, 14: 3, 15: 1, 16: 1, 17: 1, 18: 3, 19: 0,
+             20: 1, 21: 4}
+
+
+def q_logged(log):
+    """log = n (tag fields..)* -> list of (tag, fields) or None"""
+    n, i, out = log[0], 1, []
+    for _ in range(n):
+        if i >= len(log):
+            return None
+        tag = log[i]
+        if tag == 2:
+            if i + 1 >= len(log):
+                return None
+            k = 1 + 2 * log[i + 1] + 4
+        elif tag in Q_NFIELDS:
+            k = Q_NFIELDS[tag]
+        else:
+            return None
+        out.append((tag, log[i + 1:i + 1 + k]))
+        i += 1 + k
+    return out if i == len(log) else None
+
+
+def q_oracle(case, obs):
+    """C20 on the implementation's observations, no model involved:
+    (1) logging never panics: no operation ends abnormally, whatever the exporter and whether or not anybody still listens;
+    (2) purely observational: what the dispatcher is handed for a payload does not depend on the exporter configuration
+        (and is every frame of a well-formed payload);
+    (3) well-formed: exactly the events that pass the exporter's filter reach a live receiver, one per successfully read packet, carrying
+        time / name / data, group_id exactly when the span has one, parsing back to an equal event, every narrowed field in range;
+        nothing reaches anybody otherwise"""
+    kinds = case.meta.get("m") or []
+    if len(obs) != len(case.ops):
+        last = obs[-1] if obs else ""
+        if last.startswith("!"):
+            k_ = len(obs) - 1
+            st = q_state(case.ops[:k_])
+            return "abnormal: op %d (%s under exporter %s, receiver %s) -> %s" % (
+                k_, {2: "RECV", 3: "LOST", 0: "EXPORTER", 1: "GONE", 5: "TICK"}.get(case.ops[k_][0], "?") if k_ < len(case.ops) else "?",
+                Q_KINDS.get(st["kind"], st["kind"]), "alive" if st["alive"] else "gone", last)
+        return "length: %d observations for %d ops (%s)" % (len(obs), len(case.ops), last)
+    st = {"kind": 0, "mask": 0, "gid": 0, "alive": False}
+    first = {}
+    for k_, ((tag, args), line) in enumerate(zip(case.ops, obs)):
+        if line.startswith("!"):
+            return "abnormal: op %d under exporter %s, receiver %s -> %s" % (k_, Q_KINDS.get(st["kind"], st["kind"]),
+                                                                              "alive" if st["alive"] else "gone", line)
+        a = flat_args(args)
+        if tag == 0 and len(a) == 3:
+            st = {"kind": min(a[0], 4), "mask": a[1], "gid": 1 if a[2] else 0, "alive": True}
+            continue
+        if tag == 1:
+            st["alive"] = False
+            continue
+        if tag not in (2, 3) or len(a) < 2:
+            continue
+        app, log = q_split(line)
+        if app is None:
+            return "garbled: op %d observation %s" % (k_, line[:60])
+        fr = q_app_frames(app)
+        if fr is None:
+            return "garbled: op %d dispatcher record %s" % (k_, app[:12])
+        frames, err = fr
+        wire = tuple(a[2:])
+        key = (a[0], wire)
+        if key in first and first[key][1] != app:
+            return ("interference: op %d the dispatcher saw %s for a payload for which it saw %s at op %d under another exporter configuration"
+                    % (k_, app[:12], first[key][1][:12], first[key][0]))
+        first.setdefault(key, (k_, app))
+        m = kinds[k_] if k_ < len(kinds) else None
+        if m and m[0] == "P" and m[1] is not None:
+            if err is not None or [t for _, t in frames] != list(m[1]) or sum(c for c, _ in frames) != len(wire):
+                return "dispatch: op %d a well-formed payload of frames %s was dispatched as %s" % (k_, m[1][:8], app[:24])
+        passes = st["kind"] in (2, 4) or (st["kind"] == 3 and (st["mask"] >> (tag - 2)) & 1)
+        visible = passes and st["kind"] in (2, 3) and st["alive"] and err is None
+        if not visible:
+            if log != [0]:
+                return "leak: op %d an event reached the receiver although %s" % (
+                    k_, "the payload is malformed" if err is not None else "the exporter filters it / nobody listens")
+            continue
+        if not log or log[0] == 0:
+            return "lost: op %d no %s event reached the live receiver of a %s exporter" % (k_, "packet_received" if tag == 2 else "packet_lost",
+                                                                                             Q_KINDS[st["kind"]])
+        if log[0] != 1:
+            return "mandatory: op %d the event lacks time / name / data (or carries another name)" % k_
+        if len(log) < 4:
+            return "garbled: op %d log record %s" % (k_, log)
+        if log[1] != st["gid"]:
+            return "mandatory: op %d span group_id set=%d but present in the event=%d" % (k_, st["gid"], log[1])
+        if log[2] != 1:
+            return "parseback: op %d the emitted event does not parse back to an equal event (flag %d)" % (k_, log[2])
+        lf = q_logged(log[3:])
+        if lf is None:
+            return "garbled: op %d logged frames %s" % (k_, log[3:15])
+        if len(lf) > len(frames) or (frames and not lf):
+            return "frames: op %d %d frames dispatched, %d logged" % (k_, len(frames), len(lf))
+        for t, fs in lf:
+            if any(x < -4 or x >= 2 ** 64 for x in fs):
+                return "range: op %d logged frame %d has a field outside u64: %s" % (k_, t, fs)
+            if t in (3, 4) and not 0 <= fs[1] < 2 ** 32:
+                return "range: op %d logged error_code %d is not a uint32" % (k_, fs[1])
+            if t in (14, 15) and not 0 <= fs[0] < 2 ** 32:
+                return "range: op %d logged sequence_number %d is not a uint32" % (k_, fs[0])
+        vals = Q_VALUES.get(bytes(wire)) if m and m[0] == "P" and m[1] is not None else None
+        if vals is not None and len(vals) == len(lf) == len(m[1]) and not any(c in (pc.PADDING, pc.PING) for c in m[1][:-1]):
+            # frame by frame (no Padding / Ping run in front of another frame): the values a reader of the log sees
+            for i, (c, f) in enumerate(zip(m[1], vals)):
+                exp = q_expect(c, f)
+                if exp is None:
+                    continue
+                if lf[i][0] != exp[0]:
+                    return "value: op %d frame %d (type 0x%x) is logged as frame kind %d" % (k_, i, c, lf[i][0])
+                for idx, v in exp[1].items():
+                    if idx >= len(lf[i][1]) or lf[i][1][idx] != v:
+                        return "value: op %d frame %d (type 0x%x) field %d is logged as %s, the frame carries %d" % (
+                            k_, i, c, idx, lf[i][1][idx] if idx < len(lf[i][1]) else None, v)
+    return None
+
+
+def q_state(ops):
+    st = {"kind": 0, "alive": False}
+    for tag, args in ops:
+        a = flat_args(args)
+        if tag == 0 and len(a) == 3:
+            st = {"kind": min(a[0], 4), "alive": True}
+        elif tag == 1:
+            st["alive"] = False
+    return st
+
+
+def q_nontrivial(case):
+    kinds, rich = set(), False
+    for tag, args in case.ops:
+        a = flat_args(args)
+        if tag == 0 and a:
+            kinds.add(a[0])
+        if tag in (2, 3) and len(a) > 6:
+            rich = True
+    return len(kinds) >= 2 and bool(kinds & {2, 3, 4}) and rich
+
+
+def q_hist(case):
+    lab = []
+    kinds = case.meta.get("m") or []
+    st = {"kind": 0, "alive": False}
+    for k_, (tag, args) in enumerate(case.ops):
+        a = flat_args(args)
+        if tag == 0 and len(a) == 3:
+            st = {"kind": min(a[0], 4), "alive": True}
+            lab.append("exporter:%s" % Q_KINDS.get(st["kind"], "?"))
+            if st["kind"] == 3:
+                lab.append("filter:recv=%d lost=%d raw=%d" % (a[1] & 1, (a[1] >> 1) & 1, (a[1] >> 2) & 1))
+            lab.append("group_id:%d" % (1 if a[2] else 0))
+        elif tag == 1:
+            st["alive"] = False
+            lab.append("op:receiver-gone")
+        elif tag == 5:
+            lab.append("op:tick")
+        elif tag in (2, 3):
+            lab.append("op:%s" % ("recv" if tag == 2 else "lost"))
+            if st["kind"] in (2, 3, 4) and not st["alive"]:
+                lab.append("late-event:%s" % Q_KINDS[st["kind"]])
+            m = kinds[k_] if k_ < len(kinds) else None
+            if m and m[0] == "P":
+                if m[1] is None:
+                    lab.append("payload:malformed")
+                else:
+                    lab.append("payload:%s frames" % (len(m[1]) if len(m[1]) < 4 else "4+" if len(m[1]) < 100 else "600"))
+                    for c in set(m[1]):
+                        lab.append("frame:0x%x" % (c if c < 0x08 or c > 0x0f else 0x08))
+            n = len(a)
+            lab.append("bytes:%s" % ("<8" if n < 8 else "<64" if n < 64 else "<600" if n < 600 else "big"))
+            if any(x >= 0xc0 for x in a[2:]):
+                lab.append("payload:8-byte varint")
+    return lab
+
+
+def q_mutate(rng, case, j):
+    return q_case(rng, "qm%d" % j)
+
+
 STREAMS = [{
     "name": "qevent", "pkg": "he", "bin": "impl_qevent",
     "gen": gen, "oracle": oracle, "nontrivial": nontrivial, "hist": hist, "mutate": mutate,
     "classify": classify,
     "profiles": ("debug",), "profiles_thorough": ("debug", "release"),
     "rule": RULE,
+}, {
+    "name": "qlog", "pkg": "he", "bin": "impl_qlog",
+    "gen": q_gen, "oracle": q_oracle, "nontrivial": q_nontrivial, "hist": q_hist, "mutate": q_mutate,
+    "profiles": ("debug",), "profiles_thorough": ("debug", "release"),
+    "rule": Q_RULE,
 }]
